@@ -16,6 +16,7 @@ func loggedOnHB(role int, hb int) *fx {
 	if role == 0 {
 		f := newAcceptor(st, 1, 9999, 0, "0")
 		_ = f.logon("CLI", "SRV", 1, hb)
+		f.relog(role, hb)
 		return f
 	}
 	f := newInitiator(st, hb, "0", "user", "pw", 0)
@@ -23,6 +24,7 @@ func loggedOnHB(role int, hb int) *fx {
 	lg := fixgen.CreateLogon("0", 30)
 	setHdr(lg.Header(), "SRV", "CLI", 1)
 	_ = f.serve(wire(lg))
+	f.relog(role, hb)
 	return f
 }
 
@@ -56,6 +58,8 @@ func H_C08_params() {
 // H_C08_refresh: every outbound message refreshes the heartbeat timer, every inbound message the
 // silence timer, to the clock value read during that step. params: [role, dir (0 out, 1 in), kind]
 func H_C08_refresh() {
+	fxRelog = zz.Param(3)
+	tb := 2 * fxRelog
 	f := loggedOnHB(zz.Param(0), 30)
 	zz.Assume(f.s.IsLogged())
 	_ = f.h.VerifOut()
@@ -86,7 +90,7 @@ func H_C08_refresh() {
 		n1 := zz.NowCount()
 		zz.Reach("sent")
 		zz.Assert(n1 > n0, "C08: no clock reading during a send")
-		lu := zz.TimerField(1, "lastUpdate")
+		lu := zz.TimerField(tb+1, "lastUpdate")
 		zz.Assert(lu > zz.NowAt(n0), "C08: an outbound message does not refresh the heartbeat timer")
 		zz.Assert(lu <= zz.NowAt(n1), "C08: heartbeat timer refreshed to an instant not read during the send")
 	} else {
@@ -100,7 +104,7 @@ func H_C08_refresh() {
 		_ = f.serve(d)
 		n1 := zz.NowCount()
 		zz.Reach("received")
-		lu := zz.TimerField(0, "lastUpdate")
+		lu := zz.TimerField(tb, "lastUpdate")
 		zz.Assert(zz.And(lu > zz.NowAt(n0), lu <= zz.NowAt(n1)), "C09: an inbound message does not refresh the silence timer")
 		zz.Assert(f.s.state != WaitingTestReqAnswer, "C09: an inbound message does not cancel the pending disconnect")
 	}
@@ -110,11 +114,13 @@ func H_C08_refresh() {
 // state 0: logged on; 1: waiting for a TestRequest answer (still a logged-on session)
 func H_C08_heartbeat() {
 	zz.TimerStub(true)
+	fxRelog = zz.Param(3)
+	tb := 2 * fxRelog
 	f := loggedOnHB(zz.Param(0), 30)
 	zz.Assume(f.s.IsLogged())
 	_ = f.h.VerifOut()
 	zz.Yield() // both timer goroutines run up to their first TakeTimeout
-	zz.Assert(zz.And(zz.TimerWaiting(0), zz.TimerWaiting(1)), "C08: timer goroutines are not waiting on their timers after logon")
+	zz.Assert(zz.And(zz.TimerWaiting(tb), zz.TimerWaiting(tb+1)), "C08: timer goroutines are not waiting on their timers after logon")
 	zz.Assert(len(f.h.VerifOut()) == 0, "C08: a message is transmitted before the heartbeat timer expired")
 	if zz.Param(1) == 1 {
 		f.s.changeState(WaitingTestReqAnswer, true)
@@ -122,33 +128,35 @@ func H_C08_heartbeat() {
 	if zz.Param(2) == 1 {
 		f.s.cancel()
 	}
-	zz.FireTimer(1)
+	zz.FireTimer(tb + 1)
 	zz.Yield()
 	out := f.h.VerifOut()
 	zz.Reach("fired")
 	if zz.Param(2) == 1 {
 		zz.Assert(len(out) == 0, "C08: heartbeat sent by a cancelled session")
-		zz.Assert(zz.Done(1), "C08: heartbeat goroutine does not exit when the session is cancelled")
+		zz.Assert(zz.Done(tb + 1), "C08: heartbeat goroutine does not exit when the session is cancelled")
 		return
 	}
 	zz.Assert(len(out) == 1, "C08: heartbeat timer expiry does not transmit exactly one message")
 	zz.Assert(isType(out[0], "0"), "C08: heartbeat timer expiry transmits something other than a Heartbeat")
 	_, has := fieldOf(out[0], "112")
 	zz.Assert(!has, "C08: unsolicited Heartbeat carries a TestReqID")
-	zz.Assert(zz.TimerWaiting(1), "C08: heartbeat goroutine does not wait for the next period")
+	zz.Assert(zz.TimerWaiting(tb+1), "C08: heartbeat goroutine does not wait for the next period")
 	// next period
-	zz.FireTimer(1)
+	zz.FireTimer(tb + 1)
 	zz.Yield()
 	out = f.h.VerifOut()
 	zz.Assert(zz.And(len(out) == 1, isType(out[0], "0")), "C08: second heartbeat period does not transmit exactly one Heartbeat")
 }
 
-// H_C09_probe: iterations of the silence goroutine. params: [role, scenario]
+// H_C09_probe: iterations of the silence goroutine. params: [role, scenario, inbound kind, relog, logoutPending]
 // 0: silence -> TestRequest #1, silence -> disconnect
 // 1: silence -> TestRequest #1, inbound message (any kind, param 2) -> silence -> TestRequest #2 (no disconnect)
 // 2: session cancelled -> goroutine exits silently
 func H_C09_probe() {
 	zz.TimerStub(true)
+	fxRelog = zz.Param(3)
+	tb := 2 * fxRelog
 	role := zz.Param(0)
 	f := loggedOnHB(role, 30)
 	zz.Assume(f.s.IsLogged())
@@ -161,17 +169,25 @@ func H_C09_probe() {
 		peer, me = "SRV", "CLI"
 	}
 	zz.Yield()
-	zz.Class("scenario=" + strconv.Itoa(zz.Param(1)))
+	if zz.Param(4) == 1 {
+		// the application has asked for a logout and the peer goes silent without answering it
+		_ = f.s.Logout()
+		_ = f.h.VerifOut()
+		for k := range f.events {
+			delete(f.events, k)
+		}
+	}
+	zz.Class("scenario=" + strconv.Itoa(zz.Param(1)) + "/logoutPending=" + strconv.Itoa(zz.Param(4)))
 	if zz.Param(1) == 2 {
 		f.s.cancel()
-		zz.FireTimer(0)
+		zz.FireTimer(tb)
 		zz.Yield()
 		zz.Reach("fired")
 		zz.Assert(len(f.h.VerifOut()) == 0, "C09: a cancelled session probes its peer")
-		zz.Assert(zz.Done(0), "C09: silence goroutine does not exit when the session is cancelled")
+		zz.Assert(zz.Done(tb), "C09: silence goroutine does not exit when the session is cancelled")
 		return
 	}
-	zz.FireTimer(0)
+	zz.FireTimer(tb)
 	zz.Yield()
 	out := f.h.VerifOut()
 	zz.Reach("fired")
@@ -182,7 +198,7 @@ func H_C09_probe() {
 	zz.Assert(f.events[utils.EventDisconnect] == 0, "C09: disconnect after a single silence period")
 	zz.Assert(!f.h.VerifStopped(), "C09: handler stopped after a single silence period")
 	if zz.Param(1) == 0 {
-		zz.FireTimer(0)
+		zz.FireTimer(tb)
 		zz.Yield()
 		out = f.h.VerifOut()
 		zz.Assert(f.events[utils.EventDisconnect] == 1, "C09: second silence period does not raise the disconnect event once")
@@ -192,7 +208,7 @@ func H_C09_probe() {
 		default:
 			zz.Assert(false, "C09: second silence period does not cancel the session")
 		}
-		zz.Assert(zz.Done(0), "C09: silence goroutine keeps running after the disconnect")
+		zz.Assert(zz.Done(tb), "C09: silence goroutine keeps running after the disconnect")
 		for _, o := range out {
 			zz.Assert(!isType(o, "1"), "C09: a further TestRequest instead of a disconnect")
 		}
@@ -206,7 +222,7 @@ func H_C09_probe() {
 	}
 	_ = f.serve(applyDamage(b, k/nMsgKinds, numTag))
 	_ = f.h.VerifOut()
-	zz.FireTimer(0)
+	zz.FireTimer(tb)
 	zz.Yield()
 	out = f.h.VerifOut()
 	zz.Assert(f.events[utils.EventDisconnect] == 0, "C09: disconnect although a message arrived in the second period")
